@@ -116,7 +116,8 @@ inductive Ev
   | recycle (a : String)                                    -- the recycler's timer for node `a`
   | reload (rule : Rule)                                    -- rule update keeping the breakers
   | rebuild (rule : Rule) (now : Nat) (reuseStat : Bool)    -- rule update with a changed breaker part: all breakers rebuilt Closed
-  | clear                                                   -- `LoadRuleOfResource(res, nil)`
+  | clear                                                   -- `LoadRuleOfResource(res, nil)`, or a bulk load that drops the resource
+  | retryFail (a : String)                                  -- `Retryer.onDisconnected`: a failed active check
 
 def step (r : Res) : Ev → Res
   | .check now ord => (r.check now ord).1
@@ -126,6 +127,7 @@ def step (r : Res) : Ev → Res
   | .reload rule => { r with rule := rule }
   | .rebuild rule now reuse => r.rebuild rule now reuse
   | .clear => r.clear
+  | .retryFail a => r.retryFail a
 
 /-- **A reload that rebuilds the node breakers (all Closed) does not change the recycler's status map**:
     a node scheduled before the reload is still scheduled, a node marked recovered is still marked. -/
@@ -142,6 +144,13 @@ theorem rebuild_nodes (r : Res) (rule : Rule) (now : Nat) (reuse : Bool) :
   simp only [List.mem_map] at hp
   obtain ⟨q, _, rfl⟩ := hp
   rfl
+
+/-- **A failed active-recovery check is irrelevant** to everything the property speaks about: node breakers, recycler
+    status and rule are unchanged (so it can neither eject a node nor make a recovered node recyclable again). -/
+theorem failed_check_irrelevant (r : Res) (a : String) : step r (.retryFail a) = r := rfl
+
+/-- dropping a resource's rule keeps the recycler's bookkeeping and forgets every node -/
+theorem clear_keeps_status (r : Res) : r.clear.status = r.status ∧ r.clear.nodes = [] := ⟨rfl, rfl⟩
 
 /-- node `a` is in the recycler's map and marked recovered -/
 def Recovered (st : Status) (a : String) : Prop := hasKey st a = true ∧ ∀ p ∈ st, p.1 = a → p.2 = true
@@ -235,6 +244,7 @@ private theorem recovered_step {r : Res} {a : String} (h : Recovered r.status a)
   | reload rule => exact h
   | rebuild rule now reuse => exact h
   | clear => exact h
+  | retryFail b => exact h
 
 private theorem recovered_foldl {a : String} (evs : List Ev) (r₁ : Res) (h0 : Recovered r₁.status a)
     (hno : ∀ e ∈ evs, e ≠ .recycle a) : Recovered (evs.foldl step r₁).status a := by
